@@ -1,4 +1,108 @@
 import OsloModel.Proto
+import OsloModel.Scalars
+open Oslo Oslo.Scalars Oslo.Proto
 
--- stub: replaced by the real driver of this property group
-def main : IO Unit := Oslo.Proto.serve (fun _ => "bad-request")
+/-
+Requests (TAB separated).  A value field is
+  s:<hex text> | b:0 | b:1 | i:<decimal> | o:<hex str() text>:<ok=<decimal>|TypeError|ValueError|OverflowError>
+  bool     <val> <strict 0|1>        -> val:1 | val:0 | default | <Error>
+  boolstr  <val>                     -> 1 | 0 | <Error>
+  intbool  <val>                     -> 1 | 0 | <Error>
+  intlike  <val>                     -> 1 | 0
+  valint   <val> <min|N> <max|N>     -> ok:<n> | <Error>
+  strlen   <val> <min> <max|N>       -> ok | <Error>
+  uuid     <val>                     -> 1 | 0
+  int      <10|16> <hex text>        -> ok:<n> | ValueError          (primitive)
+  strip / lower / fmtuuid <hex text> -> <hex text>   (primitives; fmtuuid = _format_uuid_string)
+  str      <decimal>                 -> <hex text> | ValueError       (primitive)
+-/
+
+def showErr : ErrKind → String
+  | .valueError => "ValueError" | .typeError => "TypeError" | .overflowError => "OverflowError"
+
+def parseErr : String → Option ErrKind
+  | "ValueError" => some .valueError | "TypeError" => some .typeError
+  | "OverflowError" => some .overflowError | _ => none
+
+def parseVal (f : String) : Option PyVal :=
+  match f.splitOn ":" with
+  | ["s", h] => (unhexChars h).map .str
+  | ["b", "0"] => some (.bool false)
+  | ["b", "1"] => some (.bool true)
+  | ["i", d] => d.toInt?.map .int
+  | ["o", h, r] =>
+    match unhexChars h with
+    | none => none
+    | some t =>
+      if r.startsWith "ok=" then ((r.drop 3).toString.toInt?).map (fun n => .other t (.ok n))
+      else (parseErr r).map (fun e => .other t (.error e))
+  | _ => none
+
+def bit (b : Bool) : String := if b then "1" else "0"
+
+def handle : List String → String
+  | ["bool", v, st] =>
+    match parseVal v, st with
+    | some v, "0" | some v, "1" =>
+      match boolFromString v (st == "1") with
+      | .ok (.val b) => "val:" ++ bit b
+      | .ok .dflt => "default"
+      | .error e => showErr e
+    | _, _ => "bad-request"
+  | ["boolstr", v] =>
+    match parseVal v with
+    | some v => match isValidBoolstr v with
+                | .ok b => bit b
+                | .error e => showErr e
+    | none => "bad-request"
+  | ["intbool", v] =>
+    match parseVal v with
+    | some v => match intFromBoolAsString v with
+                | .ok n => toString n
+                | .error e => showErr e
+    | none => "bad-request"
+  | ["intlike", v] =>
+    match parseVal v with
+    | some v => bit (isIntLike v)
+    | none => "bad-request"
+  | ["valint", v, lo, hi] =>
+    match parseVal v, optInt lo, optInt hi with
+    | some v, some lo, some hi =>
+      match validateInteger v lo hi with
+      | .ok n => s!"ok:{n}"
+      | .error e => showErr e
+    | _, _, _ => "bad-request"
+  | ["strlen", v, lo, hi] =>
+    match parseVal v, lo.toInt?, optInt hi with
+    | some v, some lo, some hi =>
+      match checkStringLength v lo hi with
+      | .ok _ => "ok"
+      | .error e => showErr e
+    | _, _, _ => "bad-request"
+  | ["uuid", v] =>
+    match parseVal v with
+    | some v => bit (isUuidLike v)
+    | none => "bad-request"
+  | ["int", b, h] =>
+    match (if b = "10" then some 10 else if b = "16" then some 16 else none), unhexChars h with
+    | some b, some s => match pyIntParse b s with
+                        | some n => s!"ok:{n}"
+                        | none => "ValueError"
+    | _, _ => "bad-request"
+  | ["strip", h] => match unhexChars h with
+                    | some s => hexChars (pyStrip s)
+                    | none => "bad-request"
+  | ["lower", h] => match unhexChars h with
+                    | some s => hexChars (pyLower s)
+                    | none => "bad-request"
+  | ["fmtuuid", h] => match unhexChars h with
+                      | some s => hexChars (pyLower (uuidUndecorate s))
+                      | none => "bad-request"
+  | ["str", d] => match d.toInt? with
+                  | some n => match pyStrInt n with
+                              | .ok t => hexChars t
+                              | .error e => showErr e
+                  | none => "bad-request"
+  | _ => "bad-request"
+
+def main : IO Unit := serve handle
